@@ -20,7 +20,7 @@ from pathlib import Path
 
 from lib import S, B, observe_call
 
-GEN = ["NameCleanerParams", "RegistryParams", "RecfmParams", "EstructParams", "Cp037"]
+GEN = ["NameCleanerParams", "RegistryParams", "RecfmParams", "EstructParams", "Cp037", "TextCodec"]
 RULE = ("streams: shapes = every table shape 1..3 columns x 0..2 rows (exhaustive over shapes, distinct cell labels) in CSV, TAB, XLSX, "
         "ODS, NDJSON, fixed text, EBCDIC (RECFM N, F with and without lrecl); plain = workbooks of 1-3 sheets, tables 1-6 columns with "
         "distinct header names sampled from a pool (blanks, punctuation, quotes, commas, tabs, non-ASCII) x 0-8 rows of non-empty "
@@ -43,7 +43,7 @@ ASSUMPTIONS = [
     "by text_lines) are trusted; an EBCDIC file is its bytes; file.read(n) on a regular file returns n bytes unless at end of file",
     "the copybook scanner and schema loader (C13, C15, C01) turn '05 NAME PIC X(w).' into an atomic string property NAME of size w in "
     "source order: the layout is handed to the model as (name, width) pairs; tied by this run",
-    "bytes.decode('cp037') is the table Gen/Cp037.v printed from the CPython codec",
+    "bytes.decode('cp037') is the table Gen/Cp037.v printed from the CPython codec; the codec the source names is Gen/TextCodec.v (EstructP.codec_is_cp037)",
     "name_cleaner = C17 model (header() cannot raise)",
 ]
 TRUSTED = [
